@@ -7,6 +7,7 @@ pub mod targets;
 pub mod c02;
 pub mod c03;
 pub mod c05;
+pub mod c06;
 pub mod c07;
 pub mod c10;
 pub mod c13;
@@ -26,6 +27,7 @@ pub fn run(ctx: &Ctx) -> bool {
         "C02" => c02::run(ctx),
         "C03" => c03::run(ctx),
         "C05" => c05::run(ctx),
+        "C06" => c06::run(ctx),
         "C07" => c07::run(ctx),
         "C10" => c10::run(ctx),
         "C13" => c13::run(ctx),
@@ -42,6 +44,7 @@ pub fn replay(ctx: &Ctx, id: &str, kind: &str, case: &J) -> Vec<Fail> {
         "C02" => c02::replay(ctx, kind, case),
         "C03" => c03::replay(ctx, kind, case),
         "C05" => c05::replay(ctx, kind, case),
+        "C06" => c06::replay(ctx, kind, case),
         "C07" => c07::replay(ctx, kind, case),
         "C10" => c10::replay(ctx, kind, case),
         "C13" => c13::replay(ctx, kind, case),
